@@ -195,7 +195,7 @@ class Explorer:
                 a = {"crash": "no-answer"}
             if "panic" in a:
                 self.outcomes["panic"] += 1
-                cid = panic_class(a)
+                cid = panic_class(a) + (":json" if op in ("pl_json_to_sql", "rq_json_to_sql") else "")   # JSON documents reach code paths sources cannot
                 self.ctx.case(key)
                 self.record_failure(cid, f"{op} panics: {a['panic'][:160]} (at {a.get('at')}, in {a.get('fn')})", r, a)
             elif "crash" in a:
